@@ -62,7 +62,7 @@ def candidates(path, text):
             if a in code and '"' not in code.split(a)[0][-1:]:
                 out.append((i, "relop %s->%s" % (a.strip(), b.strip()), ln.replace(a, b, 1)))
         m = re.search(r"(\w|\))\s*([+-])\s*1\b(?!\s*[<>=.]|\w)", code)
-        if m and "for (" not in code and "++" not in code:
+        if m and "for (" not in code and "++" not in code and not re.match(r"^\s*return\b", code):
             out.append((i, "drop %s1" % m.group(2), ln[:m.start(2)] + ln[m.end():] if False else ln.replace(m.group(0), m.group(1), 1)))
         if re.match(r"^\s*[A-Za-z_][\w>.\-]*\(.*\);\s*$", code) and not re.match(r"^\s*(return|if|while|for|switch|sizeof)\b", code):
             out.append((i, "delete call", re.sub(r"\S.*$", ";", ln, 1)))
@@ -76,6 +76,11 @@ def candidates(path, text):
             out.append((i, "true -> false", re.sub(r"\btrue\b", "false", ln, 1)))
         elif re.search(r"\bfalse\b", code) and "=" in code:
             out.append((i, "false -> true", re.sub(r"\bfalse\b", "true", ln, 1)))
+        m2 = re.search(r"([<>=!]=?|\[)\s*(\d{1,5})\b(?!\.)", code)
+        if m2 and int(m2.group(2)) >= 2 and "case " not in code and "#" not in code:
+            n = int(m2.group(2))
+            out.append((i, "literal %d -> %d" % (n, n + 1), ln[:m2.start(2)] + str(n + 1) + ln[m2.end(2):]))
+            out.append((i, "literal %d -> %d" % (n, n - 1), ln[:m2.start(2)] + str(n - 1) + ln[m2.end(2):]))
         if re.match(r"^\s*(break|continue);\s*$", code):
             out.append((i, "delete " + code.strip(), re.sub(r"\S.*$", ";", ln, 1)))
     return out
